@@ -592,7 +592,16 @@ fn sim_popen(e: SimExec) -> Result<SimPopen, PopenError> {
             stdout: ok.into(),
             stderr: ek.into(),
             detached: e.detached,
+            cwd_exists: cwd_ok && e.cwd.is_some(),
+            tmpdir_exists: e.env.get("TMPDIR").map(|t| Path::new(t).is_dir()).unwrap_or(false),
         });
+        if let Some(d) = &file_data {
+            // a detached test case gets its script through a file
+            w.log(LogEv::Script {
+                pid,
+                data: Bytes(d.clone()),
+            });
+        }
         if let Some(SimIn::Data(_)) = &e.stdin {
             // `Exec::stdin(data)` + popen() is a logic error in the real crate as well
         }
